@@ -53,9 +53,9 @@ def prep_table(rep, rule, k, with_threshold, override, narrow=False):
             def code(I):
                 tg, objs = build_tg(I, [("interval", "T", ents, tm, tM) if narrow else ("interval", "T", ents), ("point", "P", pts)], m, M)
                 d = I.call_function(todict, [tg], {})
-                I.tolerance_calls = 0
+                I.tolerance_calls = I.math_tolerance_calls = 0
                 res = I.call_function(fn, [d, blank, lo, hi, L], {})
-                tol = I.tolerance_calls
+                tol = I.tolerance_calls + I.math_tolerance_calls
                 tiers = I.iterate(res.d["tiers"])
                 t = tiers[0].d
                 p = tiers[1].d
